@@ -13,7 +13,8 @@ Require Import Cirbo.Model.Base Cirbo.Model.Gate Cirbo.Model.Den Cirbo.Model.Cir
 Require Import Cirbo.Proofs.WFEmplace Cirbo.Proofs.WFStep Cirbo.Proofs.SemExt Cirbo.Proofs.SemRenameGate
         Cirbo.Proofs.SemReplaceInputs Cirbo.Proofs.SemRemove Cirbo.Proofs.SemReplaceSub Cirbo.Proofs.SemEvaluate2 Cirbo.Proofs.SemCex
         Cirbo.Proofs.C19Final.
-Require Import Cirbo.Proofs.TruthTable Cirbo.Proofs.EntryEq Cirbo.Proofs.EntryEqInputs Cirbo.Proofs.EvalRenameGate.
+Require Import Cirbo.Proofs.TruthTable Cirbo.Proofs.EntryEq Cirbo.Proofs.EntryEqInputs Cirbo.Proofs.EvalRenameGate
+        Cirbo.Proofs.SemReplaceSubEntry.
 
 (* ================= rename_gate ================= *)
 (* errors exactly when the old label is absent / the new one present *)
@@ -227,6 +228,36 @@ Theorem C19_replace_subcircuit_truth_table : forall c sub imap omap fresh c' a a
   outputs c' = map (ren_all (imap ++ omap)) (outputs c) /\
   forall vs, Forall2 (Eval c' a') (outputs c') vs <-> Forall2 (Eval c a) (outputs c) vs.
 Proof. exact replace_subcircuit_outputs_sem'. Qed.
+
+(* the same at the entry points.  The result has accepted arities when host and replacement have;
+   if moreover no primary input is removed (inputs c' = the renamed inputs of c: an input that is
+   itself a replaced output would disappear from the input list), a replacement that is
+   functionally equivalent under the correspondence for every host assignment leaves evaluate
+   (every value vector) and get_truth_table unchanged, as results *)
+Theorem C19_replace_subcircuit_arities_accepted : forall c sub imap omap fresh c',
+  WF c -> WF sub -> replace_subcircuit c sub imap omap fresh = Ok c' ->
+  arity_ok c -> arity_ok sub -> arity_ok c'.
+Proof. exact replace_subcircuit_arity_ok. Qed.
+
+Theorem C19_replace_subcircuit_outputs : forall c sub imap omap fresh c',
+  WF c -> WF sub -> replace_subcircuit c sub imap omap fresh = Ok c' ->
+  outputs c' = map (ren_all (imap ++ omap)) (outputs c).
+Proof. exact replace_subcircuit_outputs. Qed.
+
+Theorem C19_replace_subcircuit_evaluate : forall c sub imap omap fresh c',
+  Inv c -> Inv sub -> arity_ok c -> arity_ok sub -> replace_subcircuit c sub imap omap fresh = Ok c' ->
+  inputs c' = map (ren_all (imap ++ omap)) (inputs c) ->
+  (forall a b, (forall k, In k (dkeys imap) -> Eval c a k (aval b (ren_all (imap ++ omap) k))) ->
+               forall k v, In k (dkeys omap) -> Eval c a k v -> Eval sub b (ren_all (imap ++ omap) k) v) ->
+  (forall vals, evaluate c' vals = evaluate c vals) /\ get_truth_table c' = get_truth_table c.
+Proof. exact replace_subcircuit_entry_eq. Qed.
+
+Example C19_replace_subcircuit_entry_example :
+  arity_ok C19_rs_sub /\
+  exists c', replace_subcircuit C19_rs_host C19_rs_sub C19_rs_imap C19_rs_omap "f" = Ok c' /\
+    inputs c' = map (ren_all (C19_rs_imap ++ C19_rs_omap)) (inputs C19_rs_host) /\
+    get_truth_table c' = Ok [[T; T; T; T]] /\ get_truth_table C19_rs_host = Ok [[T; T; T; T]].
+Proof. exact C19_rs_entry_ok. Qed.
 
 (* or it raises one of the documented errors (the model's fuel is adequate: never OutOfFuel) *)
 Theorem C19_replace_subcircuit_errors : forall c sub imap omap fresh e,
